@@ -210,12 +210,12 @@ M('C04','set-no-copy','kvstore/mapdb/synced_map.go','s.m[string(key)] = byteutil
 M('C04','iterate-no-copy','kvstore/mapdb/synced_map.go','copiedElements[key] = byteutils.ConcatBytes(value)','copiedElements[key] = value','copy/in-out kvstore/mapdb.syncedKVMap.iterate')
 M('C04','iterate-ignore-direction','kvstore/mapdb/synced_map.go','''	for _, key := range utils.SortSlice(keysSlice, iterDirection...) {
 		if !consume([]byte(key)[len(realm):], copiedElements[key]) {''','''	for _, key := range utils.SortSlice(keysSlice) {
-		if !consume([]byte(key)[len(realm):], copiedElements[key]) {''','order/sorted-direction kvstore/mapdb.syncedKVMap.iterate')
+		if !consume([]byte(key)[len(realm):], copiedElements[key]) {''','order/sorted-direction kvstore/mapdb.mapDB.Iterate')
 M('C04','iteratekeys-no-stop','kvstore/mapdb/synced_map.go','''		if !consume([]byte(key)[len(realm):]) {
 			break
 		}''','''		if !consume([]byte(key)[len(realm):]) {
 			continue
-		}''','order/stop-on-false kvstore/mapdb.syncedKVMap.iterateKeys')
+		}''','order/stop-on-false kvstore/mapdb.mapDB.IterateKeys')
 M('C04','iterate-no-strip','kvstore/mapdb/synced_map.go','if !consume([]byte(key)[len(realm):], copiedElements[key]) {','if !consume([]byte(key), copiedElements[key]) {','realm/strip kvstore/mapdb.syncedKVMap.iterate')
 M('C04','sortslice-backward-asc','kvstore/utils/utils.go','sort.Sort(sort.Reverse(sort.StringSlice(slice)))','sort.Sort(sort.StringSlice(slice))','order/sortslice')
 M('C04','batch-set-keeps-delete','kvstore/mapdb/mapdb.go','''	delete(b.deleteOperations, stringKey)
